@@ -8,7 +8,7 @@ PROP = 'C16'
 LEAN_TARGETS = ['Props.C16']
 REQUIRED_THEOREMS = ['Props.C16.im2col_variants_agree', 'Props.C16.col2im_variants_agree', 'Props.C16.col2im_adjoint_of_im2col',
                      'Props.C16.fold_unfold_coverage']
-RULE = ('geometry grid: N, C in 1..2, H, W in 1..6, kernel 1..3, stride 1..3, dilation 1..2, padding 0..d(k-1)/2+1 per axis independently '
+RULE = ('a few geometries with one axis of extent 253..300 (where narrow index types would wrap); geometry grid: N, C in 1..2, H, W in 1..6, kernel 1..3, stride 1..3, dilation 1..2, padding 0..d(k-1)/2+1 per axis independently '
         '(non-square, stride > kernel, windows that do not tile), int and tuple kernel sizes, both layouts (N x CkHkW x L and the 2-D '
         'column matrix), arbitrary pad values, integer-valued data so equality is exact; every input array is handed over in one of the memory layouts C, Fortran, strided view, negative-stride view, window into a larger buffer; each of the three im2col and three col2im '
         'implementations and extract/place_windows is compared with its own model definition, ~8 % geometries without a window '
@@ -30,6 +30,18 @@ def geom(rng, malformed=False):
     return {'N': N, 'C': C, 'H': H, 'W': W, 'k': (kh, kw), 's': (sh, sw), 'p': (ph, pw), 'd': (dh, dw)}
 
 
+def big_geom(rng):
+    """one long axis (extent around 255 / 256 / 65535 is where narrow index types wrap), tiny everything else"""
+    k, s, d, p = rng.randint(1, 3), rng.randint(1, 3), rng.randint(1, 2), rng.randint(0, 3)
+    # extent and extent + padding straddle 255 / 256 / 257 (uint8) in every combination
+    L = rng.pick([255, 255, 254, 256 - p, 257 - p, 258 - p, 256, 257, 300])
+    small = rng.randint(1, 3)
+    ks, ss, ds, ps = rng.randint(1, min(2, small)), 1, 1, rng.randint(0, 1)
+    if rng.chance(.5):
+        return {'N': 1, 'C': rng.randint(1, 2), 'H': L, 'W': small, 'k': (k, ks), 's': (s, ss), 'p': (p, ps), 'd': (d, ds)}
+    return {'N': rng.randint(1, 2), 'C': 1, 'H': small, 'W': L, 'k': (ks, k), 's': (ss, s), 'p': (ps, p), 'd': (ds, d)}
+
+
 def out_size(g):
     o = []
     for L, k, s, p, d in zip((g['H'], g['W']), g['k'], g['s'], g['p'], g['d']):
@@ -45,9 +57,10 @@ def gl(g):
 def cases(rng, tier):
     out = []
     n = 60 if tier == 'quick' else 2500
-    for _ in range(n):
-        malformed = rng.chance(.08)
-        g = geom(rng, malformed)
+    nbig = 12 if tier == 'quick' else 120
+    for it_ in range(n + nbig):
+        malformed = rng.chance(.08) if it_ < n else False
+        g = geom(rng, malformed) if it_ < n else big_geom(rng)
         x = [float(rng.randint(-9, 9)) for _ in range(g['N'] * g['C'] * g['H'] * g['W'])]
         pad = float(rng.pick([0, 0, 0, 7, -3]))
         lh, lw = out_size(g)
